@@ -13,7 +13,7 @@ from fractions import Fraction
 
 S = Sym
 PROPERTY = 'C08'
-PROPS_MODULES = ['C08', 'C08a', 'C08b']
+PROPS_MODULES = ['C08', 'C08a', 'C08b', 'C08c']
 ASSUMPTIONS = ['exact rational arithmetic (IEEE rounding is not modelled); NaN / arithmetic on infinities are evaluation errors of the original, '
                'so they constrain nothing', 'outputs are compared modulo the order of set-literal members and of flattened and/or chains '
                '(Python set iteration order is arbitrary)']
@@ -154,17 +154,18 @@ def run(ctx):
     from hpl.parser import expression_parser, predicate_parser
     ep, prp = expression_parser(), predicate_parser()
     genv = grid_envs()
-    g1, g2, g3 = small_grammar(rng, 400 if ctx.quick else 8000)
+    g1, g2, g3 = small_grammar(rng, 400 if ctx.quick else 4000)
     forms = g1 + (rng.sample(g2, 2500) if ctx.quick else g2) + g3 + quantifier_family() + conversion_family()
     cases = []
     rejects = 0
-    for r in forms:
+    for k, r in enumerate(forms):
         try:
             e = build_api(r)
         except Exception:
             rejects += 1
             continue
-        envs = genv if not ctx.quick else rng.sample(genv, 24)
+        # thorough: the whole grid for the depth-1 terms, 32 grid points for each of the others (memory)
+        envs = rng.sample(genv, 24) if ctx.quick else (genv if k < len(g1) else rng.sample(genv, 32))
         cases.append(({'kind': 'grammar', 'expr': render(r, None, 'min')}, e, envs))
     n_grammar = len(cases)
     g = Gen(rng, aliases=['A'], max_depth=5, opaque=False, consts=False)
